@@ -84,7 +84,7 @@ theorem count_loop_stops (ev : Evalr ρ) (fuel : Nat) (st : St ρ) (ks : Nodes) 
 
 /-- a variable value longer than var-limit bytes is rejected, one within the limit is bound -/
 theorem var_limit_exact (ev : Evalr ρ) (st : St ρ) (k v w : Str) (rng : ρ)
-    (hev : ev.evalAttr st.lookup st.rng v = .ok (w, rng)) (hk : k ≠ ['_'] ∧ k ≠ cs!"__") :
+    (hev : ev.evalAttr st.geo st.env st.rng v = .ok (w, rng)) (hk : k ≠ ['_'] ∧ k ≠ cs!"__") :
     let e : Elem := { name := cs!"var", attrs := [(k, v)] }
     ((String.ofList w).utf8ByteSize > st.cfg.varLimit →
       (genVar ev st e).2 = .error (.varLimit k (String.ofList w).utf8ByteSize st.cfg.varLimit)) ∧
